@@ -1,5 +1,7 @@
 import WacModel.Parser
 import WacModel.Spec.Grammar
+import WacProofs.Lemmas.Screen
+import WacProofs.Lemmas.ParserBasic
 /-
   C12 — the parser accepts exactly the documented grammar and builds the intended tree.
   (first stage: table obligations and the screen; soundness/completeness follow)
@@ -31,5 +33,68 @@ theorem screen_eq_spec :
     Generated.controlGuard = true ∧
     Generated.screenArmOrder = ["allowed", "bidi", "discouraged", "control", "default"] := by
   decide
+
+
+/-- C12 "any text containing a bidirectional-override, deprecated or control code point other
+than tab, CR and LF, wherever it occurs, is rejected": the model rejects exactly the texts
+containing a forbidden code point (specification D7) before lexing anything, with the
+diagnostic on the first such code point (byte offset and byte length of that character). -/
+theorem screen_rejects_iff (src : Str) :
+    src.any Spec.Grammar.forbiddenChar = true ↔
+      ∃ e pre c post, src = pre ++ c :: post ∧ pre.any Spec.Grammar.forbiddenChar = false ∧
+        Spec.Grammar.forbiddenChar c = true ∧
+        parseDocument src = .error (.Lexer e ⟨utf8Len pre, c.utf8Size⟩) := by
+  have hs := Wac.Lemmas.Screen.go_spec src 0
+  constructor
+  · intro h
+    cases hd : detectInvalidInput.go 0 src with
+    | none => have := hs.1.mp hd; simp [h] at this
+    | some p =>
+      obtain ⟨e, sp⟩ := p
+      obtain ⟨pre, c, post, h1, h2, h3, h4⟩ := hs.2 e sp hd
+      refine ⟨e, pre, c, post, h1, h2, ?_, ?_⟩
+      · cases hf : Spec.Grammar.forbiddenChar c with
+        | true => rfl
+        | false => have := (Wac.Lemmas.Screen.screenChar_none_iff c).mpr hf; simp [h3] at this
+      · simp [parseDocument, detectInvalidInput, hd, h4]
+  · rintro ⟨e, pre, c, post, h1, _, h3, _⟩
+    simp [h1, h3]
+
+/-- … and a text without such a code point is never rejected by the screen: it goes to the lexer -/
+theorem screen_passes (src : Str) (h : src.any Spec.Grammar.forbiddenChar = false) :
+    parseDocument src = parseTokens (PState.init src) := by
+  have := (Wac.Lemmas.Screen.go_spec src 0).1.mpr h
+  simp [parseDocument, detectInvalidInput, this]
+
+example : (match parseDocument "package a:b; // \u202e".toList with
+    | .error (.Lexer (.DisallowedBidirectionalOverride c) ⟨16, 3⟩) => c.toNat == 0x202e
+    | _ => false) = true := by
+  decide
+
+/-- C12 "non-empty record/variant/enum/flags/tuple bodies": whatever the parser returns for one
+of these constructs has at least one field / case / flag / element -/
+theorem nonempty_bodies :
+    (∀ fuel st d st', parseRecordDecl fuel st = .ok (d, st') → d.fields ≠ []) ∧
+    (∀ fuel st d st', parseVariantDecl fuel st = .ok (d, st') → d.cases ≠ []) ∧
+    (∀ fuel st d st', parseFlagsDecl fuel st = .ok (d, st') → d.flags ≠ []) ∧
+    (∀ fuel st d st', parseEnumDecl fuel st = .ok (d, st') → d.cases ≠ []) ∧
+    (∀ fuel st ts sp st', parseType fuel st = .ok (.Tuple ts sp, st') → ts ≠ []) :=
+  ⟨fun _ _ _ _ h => Wac.Lemmas.ParserBasic.record_nonempty h,
+   fun _ _ _ _ h => Wac.Lemmas.ParserBasic.variant_nonempty h,
+   fun _ _ _ _ h => Wac.Lemmas.ParserBasic.flags_nonempty h,
+   fun _ _ _ _ h => Wac.Lemmas.ParserBasic.enum_nonempty h,
+   fun _ _ _ _ _ h => Wac.Lemmas.ParserBasic.tuple_nonempty h⟩
+
+/-- the five bodies are really rejected when empty (with the diagnostic on the closing token) -/
+example : (match parseDocument "package a:b; record r {}".toList with
+    | .error (.EmptyType "record" "field" ⟨23, 1⟩) => true
+    | _ => false) = true := by decide
+example : (match parseDocument "package a:b; type t = tuple<>;".toList with
+    | .error (.ExpectedMultiple _ 19 (some .CloseAngle) ⟨28, 1⟩) => true
+    | _ => false) = true := by decide
+/-- … and accepted with one element -/
+example : (match parseDocument "package a:b; record r { a: u8 }".toList with
+    | .ok d => d.statements.length == 1
+    | _ => false) = true := by decide
 
 end Wac.Props.C12
